@@ -35,6 +35,7 @@ type xchan struct {
 	nrecvWt int // receivers currently blocked on this channel
 	timer   bool // a timer/deadline channel: may fire whenever waited upon
 	never   bool // timer that never fires
+	ctxDone bool // a context deadline: firing closes the channel
 }
 
 func newChan(n int) *xchan { return &xchan{cap: n} }
@@ -341,6 +342,10 @@ func (ch *xchan) take() (value, bool) {
 		return v, true
 	}
 	if ch.timer && !ch.never && !ch.closed {
+		if ch.ctxDone {
+			ch.closed = true
+			return nil, false
+		}
 		return timeVal(E.now()), true
 	}
 	return nil, false // closed
